@@ -119,7 +119,7 @@ def no_compound_in_dead_while(mods, p):
                    and any(x[0] in ("if", "while", "for") for x in M.walk(s[2])) for s in M.walk(p))
 
 
-EXTRA_TRANCHES = ("comp", "coll", "cls", "bool", "perf", "str", "abs")   # optional harness/c02_<name>.py modules
+EXTRA_TRANCHES = ("comp", "coll", "cls", "bool", "perf", "str", "abs", "idx", "ctl")   # optional harness/c02_<name>.py modules
 
 DOMAIN = {"fixes.remove_dead_ifs": no_false_if_with_elif, "fixes.swap_if_else": swap_domain,
           "fixes.delete_unreachable_code": no_compound_in_dead_while,
@@ -822,7 +822,7 @@ def check(run: common.Run):
 
     # ---- known findings (ids F02x-* belong to the sibling tranche, which reports them itself)
     for f in kf:
-        if f.kind != "finding" or f.id.startswith("F02x") or re.match(r"F02(comp|coll|cls|bool|perf|str|abs)-", f.id):
+        if f.kind != "finding" or f.id.startswith("F02x") or re.match(r"F02(comp|coll|cls|bool|perf|str|abs|idx|ctl)-", f.id):
             continue
         n = oracle_known.get(f.id, 0) + sw["known"].get(f.id, 0)
         if n:
